@@ -1,6 +1,9 @@
 package sym
 
-import "fmt"
+import (
+	"fmt"
+	"strings"
+)
 
 // raceDetector implements happens-before (vector clocks) race detection over the engine's threads.
 type raceDetector struct {
@@ -157,6 +160,17 @@ func (e *Exec) raceFound(desc string, a, b *accessRec) {
 	}
 	msg := fmt.Sprintf("data race on %s: %s by thread %d at %s vs %s by thread %d at %s", desc, kind(a.write), a.th.ID, a.where, kind(b.write), b.th.ID, b.where)
 	if e.S.Check() == SatRes {
-		e.recordViolation("race", "race", msg, []string{a.where, b.where})
+		ka, kb := topLoc(a.where), topLoc(b.where)
+		if kb < ka {
+			ka, kb = kb, ka
+		}
+		e.recordViolation("race", "race", msg, []string{ka, kb})
 	}
+}
+
+func topLoc(where string) string {
+	if i := strings.Index(where, " < "); i >= 0 {
+		return where[:i]
+	}
+	return where
 }
